@@ -208,8 +208,9 @@ def replay_findings(prop, worker):
     """Pinned tier. Returns (known_lines, violations[list of (case, failure, tag)])."""
     known, violations = [], []
     n = 0
+    prop.strict = True  # known-finding allow-lists are off while pinned inputs are replayed
     for f in load_known_findings():
-        if f.get("property") != prop.id:
+        if f.get("property") != prop.id or not f.get("replay"):
             continue
         path = os.path.join(VERIF, f["replay"])
         with open(path) as fh:
@@ -234,6 +235,7 @@ def replay_findings(prop, worker):
             r = prop.check(worker, case, NullStats())
             if r and not r.get("inconclusive"):
                 violations.append((case, r, "regress-"))
+    prop.strict = False
     return known, violations, n
 
 
@@ -356,6 +358,7 @@ def replay_file(modname, clsname, path):
         data = json.load(fh)
     worker = Worker(cpu_limit=getattr(prop, "cpu_limit", 120.0))
     prop.worker = worker
+    prop.strict = True
     try:
         r = prop.check(worker, data["case"], NullStats())
     finally:
